@@ -711,6 +711,77 @@ def as_vdtype(spec, arr32):
     return out
 
 
+def mask_pattern(shape):
+    """deterministic mask: every third cell (flat C order), at least one
+    masked and one unmasked cell when the array has >= 2 cells"""
+    n = int(np.prod(shape))
+    return (np.arange(n) % 3 == 1 if n > 1 else
+            np.zeros(n, bool)).reshape(shape)
+
+
+def _fill_kw(spec):
+    mk = spec.get('mask')
+    if mk and mk['kind'] == 'build' and mk.get('fill') is not None:
+        return {'fill_value': mk['fill']}
+    if mk and mk['kind'] == 'build':
+        return {'fill_value': None}
+    return {}
+
+
+def _masked_build(spec, arr):
+    mk = spec.get('mask')
+    if mk and mk['kind'] == 'build':
+        return np.ma.masked_where(mask_pattern(arr.shape), arr)
+    return arr
+
+
+def apply_lib_mask(spec, f, lay):
+    """spec['mask']['kind'] == 'lib': pass the file through the library's own
+    mask(where=..., dims=...) - the variables that have the dimensions of the
+    first data variable get every third cell masked"""
+    mk = spec.get('mask')
+    if not mk or mk['kind'] != 'lib':
+        return f
+    name, dims = lay[0]
+    shape = f.variables[name].shape
+    kw = {} if mk.get('fill') is None else {'fill_value': mk['fill']}
+    g = f.mask(where=mask_pattern(shape), dims=dims, **kw)
+    if spec['fmt'] == 'landuse':
+        g._newstyle = spec['newstyle']
+    return g
+
+
+def filled_expectation(f, names):
+    """what a writer that fills masked cells must put on disk: float32 of
+    np.ma.filled(variable) with the variable's own fill value"""
+    out = OrderedDict()
+    nmask = 0
+    for n in names:
+        a = f.variables[n][...]
+        if isinstance(a, np.ma.MaskedArray):
+            nmask += int(np.ma.getmaskarray(a).sum())
+        out[n] = np.asarray(np.ma.filled(a)).astype('>f4')
+    return out, nmask
+
+
+@st.composite
+def input_masks(draw, spec, routes=('pnc',)):
+    """None (most cases) or a mask description for the in-memory writer
+    input; masked cases use the ordered ramp payload and float32 variables"""
+    if draw(st.integers(0, 3)) != 0:
+        spec['mask'] = None
+        return None
+    mk = {'kind': draw(st.sampled_from(['build', 'lib'])),
+          'fill': draw(st.sampled_from([-999.0, None, 1e20, -1.0]))}
+    if mk['kind'] == 'lib' and mk['fill'] is None:
+        mk['fill'] = -999.0
+    spec['mask'] = mk
+    spec['payload'] = {'mode': 'ramp', 'seed': spec['payload']['seed'],
+                       'over': []}
+    spec['vdtype'] = 'f4'
+    return mk
+
+
 def build_lib(spec, route='pnc', with_etflag=False):
     """in-memory library file holding the model's content, carrying the
     metadata the writer of spec['fmt'] documents/uses.
@@ -730,12 +801,12 @@ def build_lib(spec, route='pnc', with_etflag=False):
         f._newstyle = spec['newstyle']
         for name, dims in lay:
             v = f.createVariable(name, VDTYPES[spec.get('vdtype', 'f4')][0],
-                                 dims)
-            v[...] = as_vdtype(spec, m.vars[name][1])
+                                 dims, **_fill_kw(spec))
+            v[...] = _masked_build(spec, as_vdtype(spec, m.vars[name][1]))
             v.units = 'Fraction' if 'LANDUSE' in dims else ''
             v.long_name = name.ljust(16)
             v.var_desc = name.ljust(16)
-        return f, m
+        return apply_lib_mask(spec, f, lay), m
     nvar = len(lay)
     tflag = tflag_array(m.tflag, nvar)
     if route == 'ioapi':
@@ -774,8 +845,8 @@ def build_lib(spec, route='pnc', with_etflag=False):
             v.var_desc = 'ETFLAG'.ljust(80)
         for name, dims in lay:
             v = f.createVariable(name, VDTYPES[spec.get('vdtype', 'f4')][0],
-                                 dims)
-            v[...] = as_vdtype(spec, m.vars[name][1])
+                                 dims, **_fill_kw(spec))
+            v[...] = _masked_build(spec, as_vdtype(spec, m.vars[name][1]))
             v.units = 'ppm'
             v.long_name = name.ljust(16)
             v.var_desc = name.ljust(80)
@@ -800,7 +871,7 @@ def build_lib(spec, route='pnc', with_etflag=False):
         # file has no stagger flag); give the writer the same kind of object
         ls = spec['lstagger']
         f.LSTAGGER = np.float64('nan') if ls is None else np.int32(ls)
-    return f, m
+    return apply_lib_mask(spec, f, lay), m
 
 
 # ------------------------------------------- deterministic non-termination
@@ -934,7 +1005,8 @@ def snapshot_lib(f, spec, names=None):
         v = f.variables[k]
         a = v[...]
         if isinstance(a, np.ma.MaskedArray):
-            a = np.ma.getdata(a)
+            # masked cells stand for the variable's fill value
+            a = np.ma.filled(a)
         s.vars[k] = (tuple(getattr(v, 'dimensions', ())), np.array(a))
     if 'TFLAG' in keys:
         s.tflag = np.array(f.variables['TFLAG'][...])
